@@ -1,5 +1,5 @@
 # replay of a bounded stand-in violation (C13): re-run native/c13_tdm.py
 import sys
-print('TDM N=4, 3 time bins, shift=1: the unrolled circuit addresses modes [(3,), (0, 3), (3,), (0,), (2,), (3, 2), (2,), (3,)]..., a left rotation by 1 per bin gives [(3,), (0, 3), (3,), (0,), (0,), (1, 0), (0,), (1,)]...')
+print('N=[2] bands measured in order [0] timebins=5 shots=2: samples[0,0,2] identifies pulse 1, expected pulse 2 (band 0)')
 print('REPLAY-VIOLATION')
 sys.exit(1)
